@@ -48,12 +48,18 @@ SHAPES = {
     # isothermal utilities whose supply and target temperatures are spelt differently (plain number vs value-with-unit, 'degC' vs 'C')
     "mixed_spelling_utilities": ([("Z1", "H1", "X", 60.0, ("cp", 2), 5.0), ("Z1", "C1", 50.0, 140.0, ("cp", 3), 5.0)],
                                  [("MP", "Hot", 200.0, "float/vu"), ("CW", "Cold", 15.0, "degC/C")]),
+    # explicit zone tree with a unit operation that holds no stream (and two that do)
+    "tree_with_empty_operation": ([("Reaction/Reactor", "H1", "X", 60.0, ("cp", 2), 5.0), ("Separation/Column", "C1", 50.0, 140.0, ("cp", 3), 5.0)], [],
+                                  {"name": "Site", "type": "Site", "children": [
+                                      {"name": "Reaction", "type": "Process Zone", "children": [{"name": "Reactor", "type": "Zone", "children": None},
+                                                                                                 {"name": "Quench", "type": "Zone", "children": None}]},
+                                      {"name": "Separation", "type": "Process Zone", "children": [{"name": "Column", "type": "Zone", "children": None}]}]}),
 }
 
 
 def build(ctx, case):
-    streams_tpl, utils_tpl = SHAPES[case["shape"]]
-    x = ctx.real("x", 0, 500)
+    streams_tpl, utils_tpl = SHAPES[case["shape"]][:2]
+    x = ctx.real("x", *case.get("xrange", (0, 500)))
     temps, dts = [], []
     streams = []
     wrap = (lambda v, u: {"value": v, "units": u}) if case["shape"] == "value_with_unit" else (lambda v, u: v)
@@ -95,7 +101,10 @@ def build(ctx, case):
             for off in (0.0, 5.0, -5.0, 5.1, -5.1, 4.9, -4.9):
                 d = sx - (p + off)
                 ctx.assume(h.disj([h.close(d, 0.0, 0.0), d >= pipeline.GAPP, -d >= pipeline.GAPP]))
-    return {"streams": streams, "utilities": utils}, temps, max(dts + [5.0])
+    spec = {"streams": streams, "utilities": utils}
+    if len(SHAPES[case["shape"]]) > 2:
+        spec["zone_tree"] = SHAPES[case["shape"]][2]
+    return spec, temps, max(dts + [5.0])
 
 
 def numbers(x, path=""):
@@ -122,7 +131,14 @@ def body(ctx, case):
     recs = view["targets"]
     names = [r["name"] for r in recs]
     ctx.require(len(set(names)) == len(names), "record names are unique")
-    zones = sorted({s["zone"] for s in spec["streams"]})
+    if spec.get("zone_tree"):
+        # process zones always; unit operations (with or without streams) when operation-level targeting is requested
+        zones = [c["name"] for c in spec["zone_tree"]["children"]]
+        if spec["options"].get("DO_DIRECT_OPERATION_TARGETING") or spec["options"].get("DO_INDIRECT_PROCESS_TARGETING"):
+            zones += [g["name"] for c in spec["zone_tree"]["children"] for g in (c["children"] or [])]
+            ctx.tag("operation-level records checked")
+    else:
+        zones = sorted({s["zone"] for s in spec["streams"]})
     for zn in ["Site"] + zones:
         ctx.require(names.count(f"{zn}/Direct Integration") == 1, f"exactly one direct-integration record for zone {zn}")
     # temperature envelope
@@ -151,13 +167,14 @@ def body(ctx, case):
 def cases(tier, seed):
     if tier == "quick":
         return [{"shape": "single_hot", "opts": [0, 1, 4]}, {"shape": "single_cold", "opts": [2, 3]}, {"shape": "isothermal_pair", "opts": [0]},
-                {"shape": "duplicate_names", "opts": [3]}, {"shape": "unneeded_utilities", "opts": [1]}, {"shape": "value_with_unit", "opts": [1]}, {"shape": "mixed_spelling_utilities", "opts": [1]}]
-    return [{"shape": s} for s in SHAPES]
+                {"shape": "duplicate_names", "opts": [3]}, {"shape": "unneeded_utilities", "opts": [1]}, {"shape": "value_with_unit", "opts": [1]}, {"shape": "mixed_spelling_utilities", "opts": [1]},
+                {"shape": "tree_with_empty_operation", "opts": [3, 4], "xrange": (170, 174)}]
+    return [{"shape": s} if s != "tree_with_empty_operation" else {"shape": s, "xrange": (146, 200)} for s in SHAPES]
 
 
 FAMILIES = [
     Family(name="shapes", cases=cases, body=body, functions=FUNCS, files=FILES,
-           bounds="degenerate-but-legal problems (single hot / single cold / only hot / only cold in two zones / isothermal + normal / zero contributions / duplicate names / "
+           bounds="degenerate-but-legal problems (single hot / single cold / only hot / only cold in two zones / isothermal + normal / zero contributions / duplicate names / explicit zone tree with an empty unit operation / "
                   "five explicit utilities of which three are never needed / value-with-unit numbers) with one stream temperature a z3 real in [0,500], crossed with "
                   "option vectors chosen by the solver (quick: 1-3 per shape, thorough: all 5) (balanced curves on/off, vertical GCC + assisted transfer, unit-operation targeting, indirect process targeting)",
            assumptions=["floats modelled as exact reals", "pydantic models are pass-through stand-ins in symbolic runs; schema validity and JSON round trip are checked on the concrete replay of path models",
